@@ -754,18 +754,39 @@ func reportDiffs(c *xctx, cs *Case, diffs []diff, extra map[string]interface{}) 
 // client→wire.
 
 // callClient makes the one public API call the case describes.
-func callClient(cl *caldav.Client, cs *Case) error {
+//
+// paths: the call is made once per path, in order, every time with the SAME
+// argument value (a caller may keep a query around and use it for several
+// collections): what is sent for a later path must denote the caller's
+// request for that path, whatever the earlier calls did with the argument.
+func callClient(cl *caldav.Client, cs *Case, paths []string) error {
 	z := newZoner(cs.ZoneMode)
 	compReq := toCompReq(cs.Req.Prop.Data, z)
 	var err error
 	if cs.Req.Kind == "calendar-query" {
 		q := &caldav.CalendarQuery{CompRequest: compReq, CompFilter: toCompFilter(*cs.Req.Filter, z)}
-		_, err = cl.QueryCalendar(context.Background(), cs.Path, q)
+		for _, p := range paths {
+			_, err = cl.QueryCalendar(context.Background(), p, q)
+		}
 	} else {
-		mg := &caldav.CalendarMultiGet{Paths: append([]string(nil), cs.Paths...), CompRequest: compReq}
-		_, err = cl.MultiGetCalendar(context.Background(), cs.Path, mg)
+		var ps []string
+		if len(cs.Paths) > 0 {
+			ps = append([]string(nil), cs.Paths...)
+		}
+		mg := &caldav.CalendarMultiGet{Paths: ps, CompRequest: compReq}
+		for _, p := range paths {
+			_, err = cl.MultiGetCalendar(context.Background(), p, mg)
+		}
 	}
 	return err
+}
+
+// earlierPath is another resource next to p (same spelling class).
+func earlierPath(p string) string {
+	if strings.HasSuffix(p, "/") {
+		return strings.TrimSuffix(p, "/") + "-first/"
+	}
+	return p + "-first"
 }
 
 func execCW(c *xctx, cs *Case) {
@@ -779,7 +800,14 @@ func execCW(c *xctx, cs *Case) {
 	query := cs.Req.Kind == "calendar-query"
 	var callErr error
 	c.Journal(cs)
-	panicked, pv, stack := fw.Guard(func() { callErr = callClient(cl, cs) })
+	// multigets always, queries one in four: the same argument value is first
+	// used for another resource
+	paths := []string{cs.Path}
+	if !query || len(cs.Path)%4 == 1 {
+		paths = []string{earlierPath(cs.Path), cs.Path}
+		c.Observe("client→wire: cases", "two successive calls with one argument value", 1)
+	}
+	panicked, pv, stack := fw.Guard(func() { callErr = callClient(cl, cs, paths) })
 	c.JournalDone()
 	c.Eval(1)
 	nreq := len(capt.Reqs)
@@ -813,10 +841,21 @@ func execCW(c *xctx, cs *Case) {
 		report(c, cs, "request", "refused", fmt.Sprintf("the client sent nothing: %v", callErr), nil)
 		return
 	}
-	if nreq != 1 {
-		report(c, cs, "request", "sent more than once", fmt.Sprintf("%d HTTP requests for one call", nreq), nil)
+	if nreq != len(paths) {
+		report(c, cs, "request", "sent more than once", fmt.Sprintf("%d HTTP requests for %d call(s)", nreq, len(paths)), nil)
 	}
-	ex := capt.Reqs[0]
+	for i := 0; i < nreq && i < len(paths); i++ {
+		csi := *cs
+		csi.Path = paths[i]
+		if len(paths) > 1 {
+			csi.Seq = fmt.Sprintf("call %d of %d made with one argument value", i+1, len(paths))
+		}
+		judgeCW(c, &csi, capt.Reqs[i], z, query, callErr)
+	}
+}
+
+// judgeCW compares one request as sent with the caller's request.
+func judgeCW(c *xctx, cs *Case, ex doubles.Exchange, z zoner, query bool, callErr error) {
 	wire := map[string]interface{}{"method": ex.Method, "target": ex.Target, "depth": ex.Header.Values("Depth"),
 		"content_type": ex.Header.Values("Content-Type"), "body": string(ex.Body)}
 	extra := map[string]interface{}{"wire": wire}
